@@ -27,9 +27,11 @@ type ReaderPlan struct {
 	FaultAt      int  `json:"fault_at,omitempty"`
 	FaultSticky  bool `json:"fault_sticky,omitempty"`
 	FaultPartial bool `json:"fault_partial,omitempty"`
-	// EOFPauses: ascending logical offsets at which ONE Read returns (0, io.EOF) although more
-	// bytes follow (a source that is still growing: a file being recorded, a tailed stream);
-	// the next Read carries on. No read crosses a pause that has not been delivered yet.
+	// EOFPauses: ascending logical offsets at which Read returns (0, io.EOF) although more bytes
+	// will follow (a source that is still growing: a file being recorded, a tailed stream). The
+	// source stays at end of file until the simulated caller calls Resume - which it does after
+	// the Demuxer has told it ErrNoMorePackets, i.e. when the Demuxer has handed out everything
+	// it held. No read crosses a pause that has not been passed yet.
 	EOFPauses []int `json:"eof_pauses,omitempty"`
 }
 
@@ -45,8 +47,9 @@ type SimReader struct {
 	faulted bool // one-shot fault already delivered
 	FaultN  int  // times the fault was delivered
 	EOFHits int  // reads that returned (0, io.EOF)
-	pi      int  // EOF pauses already delivered
-	PauseN  int  // times a pause was delivered
+	pi      int  // EOF pauses already passed
+	atPause bool // the current pause has been reported at least once
+	PauseN  int  // distinct pauses reported
 	log     *core.Log
 }
 
@@ -81,6 +84,15 @@ func NewReader(data []byte, plan ReaderPlan, log *core.Log) (io.Reader, *SimRead
 	}
 }
 
+// Resume lets a source that is waiting at an EOF pause grow again.
+func (s *SimReader) Resume() {
+	if s.atPause && s.pi < len(s.plan.EOFPauses) && s.pos == s.plan.EOFPauses[s.pi] {
+		s.pi++
+		s.atPause = false
+		s.log.Add("reader", "resume", s.pos)
+	}
+}
+
 // Pos is the logical position: offset of the next byte the reader would serve.
 func (s *SimReader) Pos() int { return s.pos }
 
@@ -97,10 +109,15 @@ func (s *SimReader) Read(p []byte) (int, error) {
 	}
 	for s.pi < len(s.plan.EOFPauses) && s.plan.EOFPauses[s.pi] < s.pos {
 		s.pi++ // jumped over by a seek
+		s.atPause = false
 	}
 	if s.pi < len(s.plan.EOFPauses) && s.pos == s.plan.EOFPauses[s.pi] {
-		s.pi++
-		s.PauseN++
+		// the source stays at end of file until the caller, having been told ErrNoMorePackets,
+		// comes back later (Resume)
+		if !s.atPause {
+			s.atPause = true
+			s.PauseN++
+		}
 		s.log.Add("reader", "eof-pause", s.pos)
 		return 0, io.EOF
 	}
